@@ -46,7 +46,7 @@ def circuits(ctx):
 
     for j in range(80 if ctx.quick else 2000):
         r = ctx.rng("C03g3", j)
-        c = gen.rand_circuit(r, n_in=r.randint(1, 4), n_gates=r.randint(1, 9), max_fanin=4, consts=0.3, xconst=0.15, out_is_input=0.3)
+        c = gen.rand_circuit(r, n_in=r.randint(1, 4), n_gates=r.randint(1, 9), max_fanin=4, consts=0.3, xconst=0.15, out_is_input=0.3, loaded_in_out=0.15)
         kind = j % 4
         if kind == 1:
             gen.add_flops(r, c, r.randint(1, 2))
@@ -70,7 +70,7 @@ def circuits(ctx):
 def cases(ctx):
     for k, (src, p) in enumerate(circuits(ctx)):
         for beh in (False, True):
-            yield {"op": "v_roundtrip", "c": p, "behavioral": beh, "file": (k % 5 == 0), "src": src}
+            yield {"op": "v_roundtrip", "c": p, "behavioral": beh, "file": (k % 5 == 0), "noname": (k % 10 == 0), "src": src}
 
 
 def run_case(case, ctx):
@@ -83,7 +83,11 @@ def run_case(case, ctx):
         if case["file"]:
             path = os.path.join(ctx.scratch, "rt_%d_%d.v" % (os.getpid(), ctx.hashseed))
             cg.to_file(c, path, behavioral=case["behavioral"])
-            c2 = cg.from_file(path, name=c.name, blackboxes=bbs)
+            if case.get("noname"):
+                # the file is not called like the module: the module (and the circuit) keeps its own name
+                c2 = cg.from_file(path, blackboxes=bbs)
+            else:
+                c2 = cg.from_file(path, name=c.name, blackboxes=bbs)
             os.remove(path)
         else:
             text = cg.io.circuit_to_verilog(c, behavioral=case["behavioral"])
